@@ -30,14 +30,24 @@ SPLITS = {
 DISCONNECTING = [False]
 
 
+# the loop is busy elsewhere for this long after the first chunk has arrived in the socket: it reads it in the very iteration in which
+# the handshake deadline (30 s) becomes due - arrived data is processed before the timers of that iteration
+STALL = [0.0]
+
+
 def observe(s: Session, chunks: list[bytes], eof: bool = True) -> dict[str, Any]:
     """Deliver chunks (+EOF); return deliveries and how the pending operation ended."""
     w = s.w
     req_spawned = False
-    for ch in chunks:
+    for ci, ch in enumerate(chunks):
         if s.sock.closed:
             break
-        s.deliver(ch)
+        if ci == 0 and STALL[0]:
+            w.io_chunk(s.sock, ch)
+            w.loop.advance_to(w.loop.time() + STALL[0])
+            w.drain()
+        else:
+            s.deliver(ch)
         if not req_spawned and w.outcome("finish") == "ok" and w.conn.connection_state.name == "CONNECTED":
             # a pending request observes the error class of a failure that happens after the session is up
             req = mk("DeviceInfoRequest")
@@ -201,16 +211,20 @@ def case_job(args: tuple[Any, ...]) -> dict[str, Any]:
         n = len(handshake_deviations(s0.frames))
         s0.close()
         for i in range(n):
-            for split_mode in ("one-chunk", "frame-by-frame"):
+            for split_mode in ("one-chunk", "frame-by-frame", "one-chunk@deadline"):
                 s = Session("equal", EXPECTED, APP)
                 try:
                     desc, frames = handshake_deviations(s.frames)[i]
                     stream = b"".join(frames)
                     out["evals"] += 1
-                    if split_mode == "one-chunk":
-                        v = judge(s, stream, None, EXPECTED)
-                    else:
-                        v = judge(s, stream, len(frames[0]), EXPECTED)
+                    STALL[0] = 30.0 if split_mode.endswith("@deadline") else 0.0
+                    try:
+                        if split_mode != "frame-by-frame":
+                            v = judge(s, stream, None, EXPECTED)
+                        else:
+                            v = judge(s, stream, len(frames[0]), EXPECTED)
+                    finally:
+                        STALL[0] = 0.0
                     ref = reference_receive(stream, s.rx_key, EXPECTED, s.frames[1][3:])
                     if ref["failure"]:
                         out["failing"] += 1
@@ -221,14 +235,18 @@ def case_job(args: tuple[Any, ...]) -> dict[str, Any]:
                     s.close()
     elif kind == "name":
         for nv in ("different", "different+mac", "empty", "case", "longer"):
-            for split_mode in ("one-chunk", "after-hello"):
+            for split_mode in ("one-chunk", "after-hello", "one-chunk@deadline"):
                 s = Session(nv, EXPECTED, APP)
                 try:
                     stream = s.stream()
                     out["evals"] += 1
                     out["failing"] += 1
                     out["classes"].add("bad_name")
-                    v = judge(s, stream, None if split_mode == "one-chunk" else len(s.frames[0]), EXPECTED)
+                    STALL[0] = 30.0 if split_mode.endswith("@deadline") else 0.0
+                    try:
+                        v = judge(s, stream, len(s.frames[0]) if split_mode == "after-hello" else None, EXPECTED)
+                    finally:
+                        STALL[0] = 0.0
                     if v:
                         add(f"name:{nv}|{split_mode}", f"announced name variant {nv} ({split_mode}): {v}", desc="name:" + nv, split_mode=split_mode)
                 finally:
